@@ -80,7 +80,7 @@ fn idmap(v: &Value, style: IdStyle) -> Vec<(String, i64)> {
     let mut out = Vec::new();
     if let Some(arr) = v.as_array() {
         for e in arr {
-            out.push((style.abs(e[0].as_str().unwrap()), e[1].as_i64().unwrap() + 1));
+            out.push((style.abs_at(e[0].as_str().unwrap(), e[1].as_i64().unwrap() + 1), e[1].as_i64().unwrap() + 1));
         }
     }
     out
@@ -220,7 +220,7 @@ pub fn project(store: &AnnotationStore, style: IdStyle) -> (PState, Vec<PPos>) {
         let leaves: Vec<PLeaf> = target.iter(store, false).filter_map(|s| leaf_of(s.as_ref())).collect();
         let data: Vec<(i64, i64)> =
             a.as_ref().raw_data().iter().map(|(s, d)| (s.as_usize() as i64 + 1, d.as_usize() as i64 + 1)).collect();
-        st.anns.push(PAnn { id: style.abs(ad[1].as_str().unwrap_or("")), alive: true, kind: kind.into(), leaves, data });
+        st.anns.push(PAnn { id: style.abs_at(ad[1].as_str().unwrap_or(""), i as i64 + 1), alive: true, kind: kind.into(), leaves, data });
     }
 
     st.idm = PIdm {
